@@ -387,6 +387,36 @@ void run_complex(vf::Ctx& c, vf::Rng& rng)
             vf::sample("complex.sin", [&] { return std::string("all complex functions on ") + (sizeof(T) == 4 ? "c32 (" : "c64 (") + show_arg(x) + ", " + show_arg(y) + ")"; });
         }
     }
+    // huge arguments of the circular functions: sin/cos/tan(x + iy) with |x| up to max (any exponent), sinh/cosh/tanh(x + iy)
+    // with |y| up to max, polar(rho, theta) with |theta| up to max - glibc reduces the argument exactly, so must etl::sin/cos.
+    // The other component stays within [-8, 8] (no overflow of cosh / sinh).
+    {
+        std::uint64_t huge = 0;
+        std::uint64_t const m = n / 3 + 1;
+        for (std::uint64_t i = 0; i < m; ++i) {
+            T big{};
+            for (;;) {
+                big = from_bits<T>(static_cast<typename BitsOf<T>::type>(rng.next() >> (64 - sizeof(T) * 8)));
+                if (!nan_b(big) && !inf_b(big) && mag(big) >= T(1)) { break; }
+            }
+            if (i % 4 == 0) { // next to a multiple of pi/2 with a large multiplier
+                int const kbits     = sizeof(T) == 4 ? 40 : 70;
+                long double const k = ::floorl(::ldexpl(1.0L + static_cast<long double>(rng.next() >> 11) / 9007199254740992.0L, static_cast<int>(rng.below(static_cast<unsigned>(kbits)))));
+                T const v           = static_cast<T>(k * 1.57079632679489661923132169163975144L);
+                if (!inf_b(v) && !zero_b(v)) { big = rng.below(2) != 0 ? -v : v; }
+            }
+            T small = static_cast<T>((static_cast<double>(rng.next() >> 11) / 9007199254740992.0) * 16.0 - 8.0);
+            if (rng.below(4) == 0) { small = static_cast<T>(::ldexp(1.0, static_cast<int>(rng.range(-12, 2)))); }
+            for (int f : {F_SIN, F_COS, F_TAN}) { case_c<T>(f, big, small, true); }
+            for (int f : {F_SINH, F_COSH, F_TANH}) { case_c<T>(f, small, big, true); }
+            case_c<T>(F_POLAR, mag(small) + T(0.5), big, true);
+            huge += mag(big) > T(3.3e6);
+        }
+        vf::nontrivial_count(m * 7);
+        auto& ch = vf::stats().classes[std::string("complex.") + BitsOf<T>::name + ".circular argument beyond 2^20*pi"];
+        ch.first += huge;
+        ch.second += m;
+    }
     vf::nontrivial_count(nt * F_COUNT);
     auto& cl = vf::stats().classes[std::string("complex.") + BitsOf<T>::name + ".point on an axis, in a negative half-plane or within 2^-10 of an axis"];
     cl.first += nt;
